@@ -191,7 +191,9 @@ def lua_key(k):
 
 
 ATOMS = ["a", "b c", " x", "y ", " p q ", "Bar", "1", "10", "é", "ABC",
-         "a.b", "x-y", "q?r", "\nz", "", "0", "5", "2"]
+         "a.b", "x-y", "q?r", "\nz", "", "0", "5", "2",
+         # a pipe in a value a module passes: written {{!}} in a call
+         "x|y", "|", "p|q=r"]
 PFNS = ["#if", "#ifeq", "#switch", "lc", "uc", "#len", "#sub", "padleft",
         "ucfirst", "#pos"]
 
@@ -231,7 +233,10 @@ def api_case(draw):
         # wikitext cannot express an argument with leading / trailing
         # blanks (the call syntax trims them), so there is no equivalent
         # call for such values: inner blanks only
-        vals = [draw(st.sampled_from(ATOMS)).strip() for _ in range(n)]
+        # ... and a pipe inside a parser-function argument has no spelling
+        # either ({{!}} is only resolved in template-call arguments here)
+        vals = [draw(st.sampled_from([a for a in ATOMS if "|" not in a])
+                     ).strip() for _ in range(n)]
     return {"kind": kind, "depth": depth, "name": name, "args": vals,
             "lib": {}}
 
@@ -250,9 +255,9 @@ def build_api(case, modname):
         src = ("local p = {}\nfunction p.f(frame)\n  return '<' .. "
                "frame:expandTemplate{ title = " + lua_long(case["title"])
                + ", args = {" + items + "} } .. '>'\nend\nreturn p\n")
-        wt = "{{" + "|".join([case["title"]] + [f"{a}={v}" for a, v in
-                                                sorted(case["args"],
-                                                       key=lambda x: str(x[0]))]) + "}}"
+        wt = "{{" + "|".join([case["title"]] + [
+            f"{a}=" + v.replace("|", "{{!}}") for a, v in
+            sorted(case["args"], key=lambda x: str(x[0]))]) + "}}"
         return src, wt
     name, vals = case["name"], case["args"]
     if k == "callParserFunction":
@@ -263,7 +268,8 @@ def build_api(case, modname):
                 + ", args = {" + ", ".join(lua_long(v) for v in vals) + "} }")
     src = ("local p = {}\nfunction p.f(frame)\n  return '<' .. " + call
            + " .. '>'\nend\nreturn p\n")
-    wt = "{{" + name + ":" + "|".join(vals) + "}}"
+    wt = "{{" + name + ":" + "|".join(v.replace("|", "{{!}}")
+                                      for v in vals) + "}}"
     return src, wt
 
 
@@ -398,6 +404,7 @@ def shard(idx, seed, n_a, n_b, known):
 
     ctx = env.new_ctx()
     lua_modules.install(ctx)
+    ctx.add_page("Template:!", 10, "|")
     installed = [None]
 
     def body_b(case):
@@ -410,6 +417,9 @@ def shard(idx, seed, n_a, n_b, known):
                 pass
             ctx = env.new_ctx()
             lua_modules.install(ctx)
+            # the pipe-in-a-value spelling {{!}} (a template on the wikis
+            # this package is used with)
+            ctx.add_page("Template:!", 10, "|")
             exp.install(ctx, case["lib"])
         status, detail, wt = run_b(ctx, case)
         if status == "ood":
@@ -494,6 +504,7 @@ def replay(run, case):
     c = case["case"]
     ctx = env.new_ctx()
     lua_modules.install(ctx)
+    ctx.add_page("Template:!", 10, "|")
     exp.install(ctx, c.get("lib") or {})
     try:
         status, detail, wt = run_b(ctx, c)
